@@ -73,6 +73,17 @@ let rec print_arg (b : Buffer.t) (a : arg) : unit =
 let bytes_of_string (s : string) : n list =
   List.init (String.length s) (fun i -> byte_tab.(Char.code s.[i]))
 
+(* The extracted functions recurse once per list element (length, app, filter, take ...): inputs of a
+   megabyte need more than the default 8 MB of stack, and every minor collection scans that stack:
+   re-run once under a raised soft limit and with a larger minor heap (fewer collections). *)
+let () =
+  if Sys.getenv_opt "WI_MODELRUN_STACK" = None then begin
+    let args = String.concat " " (List.map Filename.quote (Array.to_list Sys.argv |> List.tl)) in
+    exit (Sys.command (Printf.sprintf
+      "ulimit -s unlimited 2>/dev/null || ulimit -s 4000000 2>/dev/null; WI_MODELRUN_STACK=1 OCAMLRUNPARAM=${OCAMLRUNPARAM:-s=4M} exec %s %s"
+      (Filename.quote Sys.executable_name) args))
+  end
+
 let () =
   let prop = bytes_of_string Sys.argv.(1) in
   let buf = Buffer.create 65536 in
